@@ -179,6 +179,7 @@ class WSStream:
         self.app_put: Optional[Callable] = None
         self.buffer = WebsocketBuffer(config.websocket_max_message_size)
         self.client = client
+        self.close_code: Optional[int] = None
         self.closed = False
         self.config = config
         self.context = context
@@ -246,6 +247,8 @@ class WSStream:
             if self.app_put is not None:
                 if self.state in {ASGIWebsocketState.HTTPCLOSED, ASGIWebsocketState.CLOSED}:
                     code = CloseReason.NORMAL_CLOSURE.value
+                elif self.close_code is not None:
+                    code = self.close_code  # The client closed the connection
                 else:
                     code = CloseReason.ABNORMAL_CLOSURE.value
                 await self.app_put({"type": "websocket.disconnect", "code": code})
@@ -325,6 +328,7 @@ class WSStream:
             elif isinstance(event, Ping):
                 await self._send_wsproto_event(event.response())
             elif isinstance(event, CloseConnection):
+                self.close_code = int(event.code)
                 if self.connection.state == ConnectionState.REMOTE_CLOSING:
                     await self._send_wsproto_event(event.response())
                 await self.send(StreamClosed(stream_id=self.stream_id))
